@@ -84,7 +84,7 @@ pub fn decode_single_object_reader(
 ) -> (DecOut, crate::simio::SourceStats) {
 	match kind {
 		ReaderKind::Direct(plan) => {
-			let mut src = SimSource::new(bytes, plan.clone());
+			let mut src = SimSource::new(bytes, plan.clone()).with_step_budget(crate::world::step_budget(bytes.len(), &Limits::sim_default()));
 			let r = with_ctx(env, ty, target, || serde_avro_fast::from_single_object_reader::<_, ViaTls>(&mut src, schema));
 			let (callbacks, max_depth) = STATS.with(|s| s.get());
 			let io_error = r.as_ref().err().map_or(false, |e| e.io_error().is_some());
@@ -100,7 +100,7 @@ pub fn decode_single_object_reader(
 			)
 		}
 		ReaderKind::BufReader { cap, plan } => {
-			let mut src = SimSource::new(bytes, plan.clone());
+			let mut src = SimSource::new(bytes, plan.clone()).with_step_budget(crate::world::step_budget(bytes.len(), &Limits::sim_default()));
 			let mut br = std::io::BufReader::with_capacity((*cap).max(1), &mut src);
 			let r = with_ctx(env, ty, target, || serde_avro_fast::from_single_object_reader::<_, ViaTls>(&mut br, schema));
 			let buffered = br.buffer().len();
